@@ -90,7 +90,7 @@ AB = [(65, 66), (67, 0)]          # the two text words of the exhaustive models:
 START_NDF = (False, 0, 0, 1, 0)
 START_DF = (True, 0, 0, 59, 20)   # crosses the dropped labels 00:01:00;00 and ;01
 
-# name -> generator constants.  mode "bfs" = exhaustive, "sim" = -simulate
+# name -> generator constants of the exhaustive models (thorough tier); QUICK holds the reductions of the quick tier
 EXHAUSTIVE = {
   # one pop-on caption: 3 rows x 2 indents, up to 2 rows of up to 2 text words, every code doubled
   "popon1": dict(styles=["popon"], chars=AB, rows=[1, 14, 15], descs=[16, 18], depths=[2], opts=["dup"], maxcaps=1, maxrows=2,
@@ -102,15 +102,27 @@ EXHAUSTIVE = {
   "rollup3": dict(styles=["rollup"], chars=AB, rows=[15], descs=[16, 18], depths=[2, 3], opts=["dup", "erase"], maxcaps=3, maxrows=1,
                   maxitems=1, starts=[START_DF]),
   # paint-on: two segments of up to two rows
-  "painton2": dict(styles=["painton"], chars=AB, rows=[14, 15], descs=[16, 18], depths=[2], opts=["single", "erase"], maxcaps=2,
+  "painton2": dict(styles=["painton"], chars=[(65, 66)], rows=[14, 15], descs=[16, 18], depths=[2], opts=["single", "erase"], maxcaps=2,
                    maxrows=2, maxitems=1, starts=[START_NDF]),
-  # text items: mid-row, special, extended, BS, TO in a one-row pop-on caption and a paint-on segment
+  # text items: mid-row, special, extended, BS, TO, DER in a one-row pop-on caption and a paint-on segment
   "items": dict(styles=["popon", "painton"], chars=[(65, 66)], rows=[15], descs=[16, 3],
                 depths=[2], opts=["single", "midrow", "special", "extended", "bs", "to", "der"], maxcaps=1, maxrows=1, maxitems=3,
                 starts=[START_NDF], mids=[14, 5], specials=[7], extendeds=[(2, 1)]),
-  # doubled and single codes mixed, padding, channel 2, line breaks with and without gaps, all three protocols
-  "mixed": dict(styles=["popon", "rollup", "painton"], chars=[(65, 66)], rows=[15], descs=[16], depths=[2],
-                opts=["single", "dup", "null", "ch2", "gap", "pair", "erase"], maxcaps=2, maxrows=1, maxitems=1, starts=[START_NDF]),
+  # one caption of each protocol with doubled and single codes mixed, padding, channel 2
+  "mixed1": dict(styles=["popon", "rollup", "painton"], chars=[(65, 66)], rows=[15], descs=[16], depths=[2],
+                 opts=["single", "dup", "null", "ch2", "erase"], maxcaps=1, maxrows=1, maxitems=1, starts=[START_NDF]),
+  # two captions, line breaks with and without gaps, a code and its copy straddling contiguous lines
+  "mixed2": dict(styles=["popon", "rollup"], chars=[(65, 66)], rows=[15], descs=[16], depths=[2],
+                 opts=["single", "dup", "gap", "pair", "erase"], maxcaps=2, maxrows=1, maxitems=1, starts=[START_NDF]),
+}
+QUICK = {
+  "popon1": dict(maxitems=1),
+  "popon2": dict(maxrows=1),
+  "rollup3": dict(chars=[(65, 66)], descs=[16]),
+  "painton2": dict(descs=[16]),
+  "items": dict(maxitems=2),
+  "mixed1": dict(styles=["popon", "rollup"], opts=["single", "dup", "null", "ch2"]),
+  "mixed2": dict(styles=["popon"], opts=["dup", "gap", "pair", "erase"]),
 }
 SIMULATE = dict(styles=["popon", "rollup", "painton"], chars=[(65, 66), (67, 0), (32, 68), (69, 32), (42, 92), (127, 96)],
                 rows=list(range(1, 16)), descs=list(range(32)), depths=[2, 3, 4],
@@ -325,6 +337,8 @@ def run(ctx):
   # ---- 1. design: the generator's behaviours, decoder invariants on every state ------------------
   jobs = []
   for name, cfg in EXHAUSTIVE.items():
+    if not thorough:
+      cfg = dict(cfg, **QUICK.get(name, {}))
     jobs.append((name, cfg, None, None))
   nsim = 3000 if thorough else 400
   jobs.append(("simulate", SIMULATE, f"num={nsim}", ctx.seed + 1))
